@@ -106,12 +106,15 @@ CLAIMED = {
         "design": "DESIGN.md §7 C09",
     },
     "C10": {
-        "text": "PARTIAL. Rocq theorems over the process/output model: C10_exit (exit status 1 exactly when the error list is non-empty, 0 exactly when it is empty), C10_one_result_per_file, "
-                "C10_each_unit_converted_once (every loadable file is handed to its converter exactly once, in a type-priority-sorted permutation of the input). Independence of a valid unit's service from "
-                "unrelated files (valid, malformed, failing), from placements over search directories and from creation order, and that every failure is logged with the file's path, are decided by the metamorphic "
+        "text": "Rocq theorems over the process/output model: INDEPENDENCE -- C10_added_files_change_nothing / C10_added_files_keep_results (for every set of files and every subset of it: if the files left out have other file names than "
+                "the files kept and every non-pod unit of the subset converts, then every non-pod unit of the subset has exactly the same result -- service text and service file name -- in the run over the whole set; the added files may be valid, "
+                "fail conversion, or not load at all), by C10_convert_one_monotone (a successful conversion is unchanged under any name table that has more entries or longer container lists), table-effect lemmas for all seven converters in every "
+                "outcome, C10_sort_filter (the stable priority sort commutes with leaving units out) and C10_unloadable_files_change_nothing; C10_independence_example shows the premises are satisfiable; C10_added_files_change_nothing_pods extends the statement to pods (a pod keeps its service too unless one of the added units names it in Pod=; C10_pod_independence_example shows both sides); C10_priority_table ties the conversion order of the model to main.rs. Bookkeeping: C10_exit (exit status 1 exactly "
+                "when the error list is non-empty, 0 exactly when it is empty), C10_one_result_per_file, C10_each_unit_converted_once. PARTIAL beyond that: independence from "
+                "placements over search directories and from creation order, and that every failure is logged with the file's path, are decided by the metamorphic "
                 "end-to-end oracle (base set alone vs. base set + extras, service by service), together with the whole-set correspondence of the Process model used by C08/C09.",
         "note": "Trusted: Coq kernel; the process/output models; the logger (ERROR lines are matched by file name); a pod's service legitimately depends on member containers (excluded from the extras).",
-        "technique": "machine-checked proof in Rocq (Coq 8.16) of the process bookkeeping + metamorphic end-to-end oracle",
+        "technique": "machine-checked proof in Rocq (Coq 8.16) of independence (monotonicity in the name table along the whole run) and of the process bookkeeping + metamorphic end-to-end oracle",
         "design": "DESIGN.md §7 C10",
     },
     "C11": {
